@@ -392,7 +392,12 @@ func (r *c09Replica) applyBatch(es []*c09Entry, rng *vh.Rand) string {
 // ---------------------------------------------------------------- case generation
 
 var c09Keys = []string{"a", "b", "k", "a/x", "a/y", "a/b/c", "a/b/d", "c/d", "ab", "j"}
-var c09Prefixes = []string{"", "a/", "a/b/", "c/", "zz/"}
+// list prefixes with and without trailing slash (listPageInner seeks to prefix+after; hasModifiedListEntry
+// normalises a slash-less prefix to prefix+"/")
+var c09Prefixes = []string{"", "a/", "a/b/", "c/", "zz/", "a", "a/b", "ab", "c", "/"}
+
+// `after` values that are not an entry of the listing: plain segments, folders, empty and dot segments
+var c09Afters = []string{"a", "b", "m", "x", "b/", "/", "/x", ".", "..", "a/../m", "./x", "b//", "x/y", "~"}
 var c09Vals = [][]byte{[]byte("1"), []byte("2"), []byte("3"), []byte("old"), []byte("new"), {}, []byte("v")}
 
 type c09Gen struct {
@@ -403,7 +408,7 @@ type c09Gen struct {
 	wild    bool
 }
 
-var c09OddKeys = []string{"a/<x>&", "a/b/\"q\"", "c/{d}", "~", "a/b/c/d/e/f"}
+var c09OddKeys = []string{"a/<x>&", "a/b/\"q\"", "c/{d}", "~", "a/b/c/d/e/f", "/r", "a//z", "a/./y"}
 
 func (g *c09Gen) pickKey() string {
 	if g.wild && g.rng.Chance(5) {
@@ -462,11 +467,11 @@ func (g *c09Gen) genTx(i int, idx uint64) []c09Op {
 		after := ""
 		limit := []int{-1, 0, 1, 2, 5}[rng.Intn(5)]
 		full := st.list(p, "", -1)
-		if rng.Chance(30) {
-			if len(full) > 0 && rng.Chance(70) {
-				after = full[rng.Intn(len(full))]
+		if rng.Chance(50) {
+			if len(full) > 0 && rng.Chance(60) {
+				after = full[rng.Intn(len(full))] // may be "" (the key equal to a slash-less prefix)
 			} else {
-				after = []string{"a", "b", "m", "x", "b/"}[rng.Intn(5)]
+				after = c09Afters[rng.Intn(len(c09Afters))]
 			}
 		}
 		o := c09Op{kind: 'l', pfx: p, after: after, limit: limit, items: st.list(p, after, limit)}
@@ -764,6 +769,23 @@ func TestVerifC09(t *testing.T) {
 	frb := []*c09Entry{c09Put(1, "k", "old", 0), c09Put(2, "k", "new", 1), c09Put(3, "x", "y", 1), c09Txn(4, 1, "k", []byte("old"), "j", 3)}
 	c09Run(t, out, rng, frb, 2, c09Fixed([]c09Event{c09B(0, 1), c09B(0, 1), c09B(0, 1), c09L(0, 3), c09B(0, 1),
 		c09B(1, 1), c09B(1, 1), c09B(1, 1), c09B(1, 1)}))
+	// paginated list records (non-empty after) under a slash-less and a slash-terminated prefix: every replica
+	// evaluates or skips them alike; a write to "ab" is under prefix "a" but not under its normalisation "a/"
+	lst := func(idx, start uint64, pfx, after string, limit int, items []string, low uint64) *c09Entry {
+		return &c09Entry{idx: idx, low: c09u64(low), ops: []c09Op{{kind: 'b', start: start},
+			{kind: 'l', pfx: pfx, after: after, limit: limit, items: items}, {kind: 'p', key: "j", val: []byte("1")}, {kind: 'c'}}}
+	}
+	fls := []*c09Entry{c09Put(1, "a/x", "1", 0), c09Put(2, "a/y", "1", 1), c09Put(3, "ab", "1", 2), c09Put(4, "a", "1", 3),
+		c09Put(5, "k", "1", 4),
+		lst(6, 4, "a", "/", -1, []string{"b"}, 4),              // honest, nothing under "a" written since 4
+		lst(7, 2, "a", "", 2, []string{"/"}, 2),                // stale (a, ab added since 2), tracker prefix "a/" misses both
+		lst(8, 6, "a/", "x", 1, []string{"y"}, 6),              // honest page after "x"
+		c09Put(9, "a/xx", "1", 6),
+		lst(10, 8, "a/", "x", 1, []string{"y"}, 8),             // stale: a/xx now follows x
+		lst(11, 10, "a/", "a/../m", 0, []string{"x", "xx", "y"}, 10), // after with dot segments: plain string comparison
+	}
+	c09Run(t, out, rng, fls, 3, c09Fixed([]c09Event{c09B(0, 11), c09B(1, 5), c09B(1, 1), c09B(1, 1), c09B(1, 1), c09B(1, 1),
+		c09B(1, 1), c09B(1, 1), c09B(2, 3), c09R(2), c09B(2, 4), c09B(2, 4)}))
 	// neighbours without defect: honest transaction that must commit / must conflict everywhere
 	ok1 := []*c09Entry{c09Put(1, "k", "old", 0), c09Put(2, "x", "1", 1), c09Txn(3, 1, "k", []byte("old"), "j", 1),
 		c09Txn(4, 2, "j", nil, "k", 2), c09Txn(5, 4, "j", []byte("1"), "z", 4)}
